@@ -117,6 +117,30 @@ def near_misses(rng):
     out.append(b"!" + b2 + b"*" + (b"%02X" % ais.xor_all(b2)) + b",0*" + (b"%02X" % ais.xor_all(b2)))
     out.append(b"!AIVDM,1,1,,A,1*FF,0*0B")
     out += numeric_extremes(rng, p, f)
+    out += utf8_lines(rng, 12)
+    return out
+
+
+def utf8_lines(rng, n=10):
+    """Text lines that are valid UTF-8 with multi-byte characters at varying byte offsets (error
+    messages quote the offending input), of 0..200 bytes, most of them rejected by the grammar."""
+    out = []
+    words = ["Z\u00fcrich", "\u00c5lesund", "na\u00efve", "\u6e2f", "\U0001f6a2", "caf\u00e9", "\u00f8", "abc", " ", ",", "TXT", "*", "1,1,,A,"]
+    for _ in range(n):
+        pre = rng.choice([b"", b"!", b"$", b"$GPTXT,01,01,02,", b"!AIVDM,1,1,,A,", b"!AIVDM,2,1,3,B,", b"\\s:x\\!AIVDM,"])
+        target = rng.choice([0, 5, 30, 58, 59, 60, 61, 62, 63, 64, 65, 100, 200])
+        body = bytearray(rng.choice([b"", b"a", b"ab", b"abc"]))
+        while len(body) < target:
+            body += rng.choice(words).encode("utf-8")
+        tail = rng.choice([b"", b"*00", b"*7F", b",0*00"])
+        out.append(pre + bytes(body) + tail)
+    # dense multi-byte text: with the two parities (three residues) every byte offset of the remaining
+    # input falls inside a character for one of the lines, wherever the parser stopped
+    for pre in (b"", b"!", b"$GPTXT,01,01,02,", b"!AIVDM,1,1,,A,", b"!AIVDM,1,1,,A,15,0"):
+        for shift in (0, 1):
+            out.append(pre + b"a" * shift + "\u00fc".encode("utf-8") * 150)
+        for shift in (0, 1, 2):
+            out.append(pre + b"a" * shift + "\u6e2f".encode("utf-8") * 90 + b"*00")
     return out
 
 
@@ -387,18 +411,38 @@ class C07(SentProp):
         h6 = H6()
         for i, (lab, hops) in enumerate(h6.cases("quick", rng)):
             if lab == "random":
+                # sentences numbered outside 1 <= k <= n are legal for the grammar; whatever the parser makes of
+                # them, the payload it reports must be theirs
+                for (n, k, mid) in rng.sample([(0, 1, None), (0, 0, None), (1, 2, None), (0, 1, 1), (2, 3, None), (1, 0, None)], 3):
+                    hops = hops + [L(ais.sentence(gen.random_alphabet(rng, 6), nf=n, fn=k, mid=mid, fill=0), 0, rng.randrange(2))]
                 yield ("groups", hops)
 
     def judge_groups(self, rep, cfg, ops, impl, model):
         from .props_hist import SpecGroup
         spec = SpecGroup(384 if cfg == "noalloc" else None)
+        spec_valid = True
         for op, a, m in zip(ops, impl, model):
             if not op.startswith("L "):
                 continue
             rep.evaluations += 1
             ref = ref_sentence(op_line(op), cfg == "noalloc")
-            want = spec.feed(ref[1]) if ref[0] == "ok" else ("R",)
+            if ref[0] == "ok" and not (1 <= ref[1]["fn"] <= ref[1]["nf"]):
+                spec_valid = False      # numbered outside 1..n: the group automaton of C06 does not speak about it
+            want = (spec.feed(ref[1]) if ref[0] == "ok" else ("R",)) if spec_valid else None
             pa = parse_answer(a)
+            pm = parse_answer(m)
+            if pa["cls"] == "C" and pm["cls"] == "C" and pa["sent"]["data"] != pm["sent"]["data"]:
+                rep.violation("C07: the reported payload differs from the model's (own payload, or the concatenation of the accepted fragments)",
+                              {"cfg": cfg, "ops": ops[:ops.index(op) + 1], "impl": a, "model": m})
+                return
+            if pa["cls"] != pm["cls"]:
+                rep.violation("C07: model and implementation disagree on the outcome of a line",
+                              {"cfg": cfg, "ops": ops[:ops.index(op) + 1], "impl": a, "model": m})
+                return
+            if want is None:
+                if pa["cls"] == "C":
+                    rep.nontrivial.add(op)
+                continue
             if pa["cls"] == "C" and want[0] == "C" and pa["sent"]["data"] != want[1].hex():
                 rep.violation("C07: a completed group's payload is not the concatenation of its fragments' payloads",
                               {"cfg": cfg, "ops": ops[:ops.index(op) + 1], "impl": a})
